@@ -15,7 +15,7 @@ def _cfg(path, **kv):
     lines += ["INVARIANTS EmittedOk NoLoss Progress Closed", "CHECK_DEADLOCK FALSE"]
     open(path, "w").write("\n".join(lines) + "\n")
 
-ALL_KINDS = ["Filter", "Aggregate", "Sort", "Take", "Distinct", "DistinctOn", "Join", "Union"]
+ALL_KINDS = ["Filter", "Aggregate", "Sort", "Take", "Distinct", "DistinctOn", "Join", "Union", "Except", "Intersect"]
 
 def mc(tier, name="backend"):
     """-> (pipelines for replay, info).  info["design_violation"] when the repaired machine violates an invariant (a defect of
@@ -98,7 +98,7 @@ def rq_doc(pipe):
             ts.append({"Join": {"side": t["side"], "with": {"columns": [[{"Single": "k"}, nid]], "name": "u", "prefer_cte": True, "source": 1},
                                 "filter": _op("std.eq", _ref(t["refs"][0]), _ref(nid))}})
             vis.append(nid)
-        elif k == "Union":
+        elif k in ("Union", "Except", "Intersect"):
             cols = []
             for c in vis:
                 fresh[0] += 1; cols.append([{"Single": names.get(c, f"c{c}")}, fresh[0]])
